@@ -9,6 +9,7 @@ use crate::bridge::*;
 use crate::prng::Rng;
 use crate::props::c07::gen_history;
 use crate::refimpl::refwriter::*;
+use crate::refimpl::robj::RObj;
 use crate::util::*;
 use lopdf::Document;
 use serde_json::{json, Map, Value};
@@ -27,7 +28,36 @@ pub fn gen_file(seed: u64, i: u64, want_many: bool) -> (Vec<u8>, usize) {
     loop {
         let mut r = Rng::for_case(seed, TAG, tries, i);
         tries += 1;
-        let h = gen_history(&mut r, if want_many { 60 } else { 14 }, 4);
+        let mut h = gen_history(&mut r, if want_many { 60 } else { 14 }, 4);
+        // every fifth file is a history in which each of three updates rewrites (almost) all objects, so that the object
+        // streams together hold more objects than the cross-reference table has rows - as in documents that were
+        // re-saved incrementally many times
+        if i % 5 == 3 {
+            // densely numbered base revision (the table then has about as many rows as there are objects)
+            let n = if want_many { 40 + r.usize_below(20) } else { 6 + r.usize_below(8) } as u32;
+            let mut objects: BTreeMap<(u32, u16), RObj> = BTreeMap::new();
+            objects.insert((1, 0), RObj::Dict(vec![(b"Type".to_vec(), RObj::Name(b"Catalog".to_vec()))]));
+            for num in 2..=n {
+                let o = match r.below(3) {
+                    0 => RObj::Int(num as i64),
+                    1 => RObj::Str(format!("object {}", num).into_bytes(), false),
+                    _ => RObj::Dict(vec![(b"N".to_vec(), RObj::Int(num as i64)), (b"Next".to_vec(), RObj::Ref(1 + num % n, 0))]),
+                };
+                objects.insert((num, 0), o);
+            }
+            h.revisions[0] = Revision { objects, trailer: vec![(b"Root".to_vec(), RObj::Ref(1, 0))] };
+            let base = h.revisions[0].clone();
+            h.revisions.truncate(1);
+            for k in 1..=3i64 {
+                let mut rev = Revision { objects: BTreeMap::new(), trailer: base.trailer.clone() };
+                for (id, o) in &base.objects {
+                    if id.1 == 0 && !matches!(o, RObj::Stream(..)) && !r.chance(1, 8) {
+                        rev.objects.insert(*id, RObj::Array(vec![o.clone(), RObj::Int(k)]));
+                    }
+                }
+                h.revisions.push(rev);
+            }
+        }
         let mut dis = BTreeSet::new();
         for f in ["str-raw-cr-eol", "str-raw-crlf-eol"] {
             dis.insert(f.to_string());
